@@ -9,7 +9,7 @@ SPEC = {
         {"bin": "h_joinable", "n": {"quick": 150, "thorough": 1800}, "known_bits": {}},
     ],
     "shard_eval": "coqtop",
-    "rule": "h_network: every case = pocketscion topology (directed shortcut/peering/on-path/multi-core/two-ISD shapes, sampled small DAG family with permuted interface numbering, random up to 12 [20] ASes) + one path offered by SegmentRegistry::paths (real registry, real combinator) or the reverse of the packet that arrived; oracle: the reference router delivers it at the destination crossing exactly the metadata's interfaces, and the reply over the reversed arrived path reaches the sender. h_segments: every segment the real control plane builds for sampled AS pairs (random SegID, expiry), every MAC recomputed by the beacon model; h_joinable: topologies that put (src,dst) pairs into every reachable row of the ListSegmentPlan table (several cores per ISD with single-homed leaves, single-core ISDs, two ISDs; wildcard any-core destinations); per pair ALL segments of the topology (beaconing recomputed by the harness, independent of the registry) and what the real lookup path (registry lister + ListSegmentPlan + combinator) offers; oracle Spec.joinable / joinable_any (specification rules without peering) implies offered > 0; non-trivial = at least 2 hop fields / AS entries / one segment; distinct by full case text",
+    "rule": "h_network: every case = pocketscion topology (directed shortcut/peering/on-path/multi-core/two-ISD shapes, two- and three-ISD shapes whose AS NUMBERS repeat across ISDs (same number core in every ISD, leaf in one and core in the other, equally numbered leaves joined by a peering link), sampled small DAG family (two-ISD members half of the time with per-ISD numbering) with permuted interface numbering, random up to 12 [20] ASes) + one path offered by SegmentRegistry::paths (real registry, real combinator) or the reverse of the packet that arrived; oracle: the reference router delivers it at the destination crossing exactly the metadata's interfaces, and the reply over the reversed arrived path reaches the sender. h_segments: every segment the real control plane builds for sampled AS pairs (random SegID, expiry), every MAC recomputed by the beacon model; h_joinable: topologies that put (src,dst) pairs into every reachable row of the ListSegmentPlan table (several cores per ISD with single-homed leaves, single-core ISDs, two ISDs, the repeated-AS-number shapes with cross-ISD pairs first; wildcard any-core destinations); per pair ALL segments of the topology (beaconing recomputed by the harness, independent of the registry) and what the real lookup path (registry lister + ListSegmentPlan + combinator) offers; oracle Spec.joinable / joinable_any (specification rules without peering) implies offered > 0; non-trivial = at least 2 hop fields / AS entries / one segment; distinct by full case text",
     "assumptions": ["segments are built by the pocketscion control plane from the topology (one entry per AS along existing links)",
                     "take_while in update_macs never stops early: no stored entry equals the new MAC-less entry"],
 }
